@@ -210,4 +210,4 @@ def run(tier, seed, replay=None):
             for r in s['reports']:
                 if r.get('crate_frame') or 'crash' in r['kind']:
                     rep.violations.append((s['tool'], r.get('line', -1), 'C16:sanitizer:%s' % s['tool'], '%s at %s' % (r['kind'], r.get('crate_frame')), r['text'][:300].replace('\n', ' | '), None))
-    return rep.finish(FLOORS, extra)
+    return rep.finish(None if replay else FLOORS, extra)   # a replay re-runs a handful of cases: no floors
